@@ -400,7 +400,7 @@ PLAN = {
 def run(tier):
     sched.configure(env.adaptix_src())
     report = Report()
-    deadline = time.time() + (240 if tier == "quick" else 3600)
+    deadline = time.time() + (240 if tier == "quick" else 10800)
     shards = []
     for hname, rname, bound in PLAN[tier]:
         expected(hname)
